@@ -5,6 +5,7 @@ import (
 	"fmt"
 	"io"
 	"runtime"
+	"strings"
 	"testing"
 
 	"github.com/pinealctx/neptune/tex"
@@ -304,6 +305,7 @@ func c11Seq(sc *C11Scenario, opsList []bOp, o *hx.Outcome, yield func()) []strin
 	default:
 		tb, sb = &tex.Buffer{}, &bytes.Buffer{}
 	}
+	var heldStrings []keptString
 	afterGrow := false
 	readSinceReset := sc.Init == "bytes" || sc.Init == "string" // ReWrite is specified on the written, unread region only
 	for i, op := range opsList {
@@ -359,6 +361,10 @@ func c11Seq(sc *C11Scenario, opsList []bOp, o *hx.Outcome, yield func()) []strin
 		var tc, sc2 []byte
 		tr := apply(tb, op, &tc, o.Counts)
 		sr := apply(sb, op, &sc2, map[string]int{})
+		if op.Op == "string" && len(tr) > 0 {
+			// a string is a value: it must read the same after whatever happens to the buffer later
+			heldStrings = append(heldStrings, keptString{tr, strings.Clone(tr)})
+		}
 		line := fmt.Sprintf("%d %s n=%d len(data)=%d -> tex %q | bytes %q", i, op.Op, op.N, len(op.Data), trunc(tr), trunc(sr))
 		log = append(log, line)
 		if tr != sr {
@@ -378,6 +384,12 @@ func c11Seq(sc *C11Scenario, opsList []bOp, o *hx.Outcome, yield func()) []strin
 		}
 		if len(tr) >= 6 && tr[:6] == "panic:" {
 			o.Counts["panic-in-both"]++
+		}
+	}
+	for _, k := range heldStrings {
+		if k.v != k.was && o.Class == "" {
+			o.Class = "string-changed-after-later-operations"
+			o.Msg = fmt.Sprintf("String() returned %s; after later operations on the buffer the same string value reads %s", trunc(fmt.Sprintf("%q", k.was)), trunc(fmt.Sprintf("%q", k.v)))
 		}
 	}
 	return log
